@@ -94,6 +94,32 @@ def build(profile):
     return exe
 
 
+_mlar = {}
+
+
+def build_mlar():
+    """Build the real `mlar` binary from /repo's working tree (no hooks: guard off, production constants)."""
+    if "exe" in _mlar:
+        return _mlar["exe"]
+    env = dict(os.environ)
+    for k in list(env):
+        if k.startswith("MLA_VERIF_"):
+            del env[k]
+    env["CARGO_NET_OFFLINE"] = "true"
+    env.pop("RUSTFLAGS", None)
+    tdir = os.path.join(HARNESS, "target", "cli")
+    t0 = time.time()
+    p = subprocess.run(["cargo", "build", "-p", "mlar", "--offline", "--target-dir", tdir], cwd=REPO, env=env,
+                       stdout=subprocess.PIPE, stderr=subprocess.STDOUT, text=True)
+    if p.returncode != 0:
+        sys.stdout.write(p.stdout[-6000:])
+        raise ToolError("cargo build -p mlar failed")
+    exe = os.path.join(tdir, "debug", "mlar")
+    log(f"[build] mlar ready in {time.time() - t0:.1f}s")
+    _mlar["exe"] = exe
+    return exe
+
+
 def mbt(profile, engine, *args, timeout=3600, env_extra=None, check=True):
     exe = build(profile)
     env = dict(os.environ)
